@@ -80,9 +80,10 @@ func factory() *refutil.TypeFactory {
 	refutil.RegisterType[ConcatNode](f)
 	refutil.RegisterType[PairNode](f)
 	refutil.RegisterType[basics.TextNode](f)
-	refutil.RegisterType[parameter.String](f)
-	refutil.RegisterType[parameter.Float64](f)
-	refutil.RegisterType[parameter.Bool](f)
+	// non-zero defaults: a zero current value must survive the round trip as a value, not fall back to the default
+	refutil.RegisterTypeWithBuilder[parameter.String](f, func() parameter.String { return parameter.String{DefaultValue: "dflt"} })
+	refutil.RegisterTypeWithBuilder[parameter.Float64](f, func() parameter.Float64 { return parameter.Float64{DefaultValue: 2.5} })
+	refutil.RegisterTypeWithBuilder[parameter.Bool](f, func() parameter.Bool { return parameter.Bool{DefaultValue: true} })
 	refutil.RegisterType[parameter.File](f)
 	return f
 }
@@ -141,10 +142,75 @@ type world struct {
 	ids   []string
 	kinds map[string]string
 	arrN  int // connected array slots of concat#0
+	meta  map[string]string // reference model of the metadata: flattened leaf path -> canonical JSON value
 }
 
 func newWorld() *world {
-	return &world{inst: graph.New(factory()), kinds: map[string]string{}}
+	return &world{inst: graph.New(factory()), kinds: map[string]string{}, meta: map[string]string{}}
+}
+
+// setMeta / delMeta apply an edit to the instance and to the reference model.
+func (w *world) setMeta(key string, value any) {
+	w.inst.SetMetadata(key, value)
+	for k := range w.meta {
+		if k == key || strings.HasPrefix(k, key+".") {
+			delete(w.meta, k)
+		}
+	}
+	flatten(key, value, w.meta)
+}
+
+func (w *world) delMeta(key string) bool {
+	if g := core.Guard(func() { w.inst.DeleteMetadata(key) }); g.Panicked {
+		return false
+	}
+	for k := range w.meta {
+		if k == key || strings.HasPrefix(k, key+".") {
+			delete(w.meta, k)
+		}
+	}
+	return true
+}
+
+func flatten(prefix string, v any, out map[string]string) {
+	if m, ok := v.(map[string]any); ok {
+		for k, x := range m {
+			flatten(prefix+"."+k, x, out)
+		}
+		return
+	}
+	b, _ := json.Marshal(v)
+	out[prefix] = string(b)
+}
+
+func flatString(m map[string]string) string {
+	keys := make([]string, 0, len(m))
+	for k := range m {
+		keys = append(keys, k)
+	}
+	sort.Strings(keys)
+	var sb strings.Builder
+	for _, k := range keys {
+		sb.WriteString(k + "=" + m[k] + ";")
+	}
+	return sb.String()
+}
+
+// metaLeaves flattens the metadata block of a saved file (empty maps left behind by deletions carry no leaf).
+func metaLeaves(file []byte) string {
+	var doc struct {
+		Data struct {
+			Metadata map[string]any `json:"metadata"`
+		} `json:"data"`
+	}
+	if json.Unmarshal(file, &doc) != nil {
+		return "<unparsable>"
+	}
+	out := map[string]string{}
+	for k, v := range doc.Data.Metadata {
+		flatten(k, v, out)
+	}
+	return flatString(out)
 }
 
 func (w *world) nth(kind string, k int) string {
@@ -182,8 +248,8 @@ func (w *world) dependedOn(id string) bool {
 }
 
 var setValues = map[string][]string{
-	"str":  {`"x\"y\\z"`, `"v2 é\n"`},
-	"num":  {`1.5`, `-0.1`},
+	"str":  {`"x\"y\\z"`, `""`},
+	"num":  {`1.5`, `0`},
 	"bool": {`true`, `false`},
 	"file": {"\x00\x01binary\xff", "second"},
 }
@@ -274,19 +340,18 @@ func (w *world) apply(o Op) bool {
 		}
 		switch o.S {
 		case "position":
-			w.inst.SetMetadata("nodes."+w.ids[0]+".position", map[string]any{"x": 1.0, "y": 2.5})
+			w.setMeta("nodes."+w.ids[0]+".position", map[string]any{"x": 1.0, "y": 2.5})
 		case "note":
-			w.inst.SetMetadata("notes.n1", map[string]any{"text": "a \"quoted\" note", "width": 10.0})
+			w.setMeta("notes.n1", map[string]any{"text": "a \"quoted\" note", "width": 10.0})
 		case "deep":
-			w.inst.SetMetadata("nodes."+w.ids[len(w.ids)-1]+".ui.collapsed", true)
+			w.setMeta("nodes."+w.ids[len(w.ids)-1]+".ui.collapsed", true)
 		}
 	case "metadel":
 		if len(w.ids) == 0 {
 			return false
 		}
 		key := map[string]string{"position": "nodes." + w.ids[0] + ".position", "note": "notes.n1", "deep": "nodes." + w.ids[len(w.ids)-1] + ".ui.collapsed"}[o.S]
-		g := core.Guard(func() { w.inst.DeleteMetadata(key) })
-		if g.Panicked {
+		if !w.delMeta(key) {
 			return false // deleting a key that does not exist is not an edit
 		}
 	case "delete":
@@ -379,8 +444,9 @@ func buildSeed(name string) *world {
 		w.inst.ConnectNodes(c, "Out", t2, "In")
 		w.inst.SetNodeAsProducer(t1, "pair.txt")
 		w.inst.SetNodeAsProducer(t2, "concat.txt")
-		w.inst.SetMetadata("nodes."+p+".position", map[string]any{"x": 3.0, "y": 4.0})
-		w.inst.SetMetadata("notes.n0", map[string]any{"text": "hello"})
+		w.setMeta("nodes."+p+".position", map[string]any{"x": 3.0, "y": 4.0})
+		w.setMeta("nodes."+c+".position", map[string]any{"x": 30.0, "y": 40.0})
+		w.setMeta("notes.n0", map[string]any{"text": "hello"})
 	case name == "two-files":
 		// two binary parameters: their payloads live in the file's shared buffer
 		f1, f2, s := w.create("file"), w.create("file"), w.create("str")
@@ -467,18 +533,6 @@ func describe(inst *graph.Instance, ids []string) (string, map[string]string) {
 		}
 	}
 	return strings.Join(lines, "\n"), arts
-}
-
-// metadataOf extracts the metadata block of a saved file (canonical JSON).
-func metadataOf(file []byte) string {
-	var doc map[string]json.RawMessage
-	if json.Unmarshal(file, &doc) != nil {
-		return "<unparsable>"
-	}
-	var m any
-	json.Unmarshal(doc["metadata"], &m)
-	b, _ := json.Marshal(m)
-	return string(b)
 }
 
 type Case struct {
@@ -596,8 +650,12 @@ func roundTrip(cs Case) (r result) {
 			break
 		}
 	}
-	if m1, m2 := metadataOf(s1), metadataOf(s2); m1 != m2 {
-		add("graph.Instance.ApplyAppSchema", "loading the saved file yields the same metadata", "metadata-differs", fmt.Sprintf("%s vs %s", m1, m2))
+	if want, got := flatString(w.meta), metaLeaves(s2); want != got {
+		cl := "metadata-lost-on-load"
+		if metaLeaves(s1) != want {
+			cl = "metadata-lost-on-save"
+		}
+		add("graph.Instance.EncodeToAppSchema/ApplyAppSchema", "saving and loading yields the same metadata", cl, fmt.Sprintf("metadata set through the API: %s — metadata of the reloaded graph: %s", want, got))
 	}
 	if !bytes.Equal(s1, s2) {
 		add("graph.Instance.EncodeToAppSchema", "saving the reloaded graph reproduces the file byte for byte", "bytes-differ", byteDiff(s1, s2))
